@@ -141,6 +141,9 @@ func WorkerMain(id, tier string, shardIdx, shardN int, outBase string) int {
 		return 2
 	}
 	cfg := Config{Bound: t.Bound, ShardIdx: shardIdx, ShardN: shardN, MaxExec: t.MaxExec, Tier: tier}
+	if v, _ := strconv.ParseInt(os.Getenv("VERIF_MAXEXEC"), 10, 64); v > 0 {
+		cfg.MaxExec = v // debugging aid: cap executions per worker (evidence then says exhaustive:false)
+	}
 	if t.DeadlineSec > 0 {
 		cfg.Deadline = time.Now().Add(time.Duration(t.DeadlineSec) * time.Second)
 	}
